@@ -435,6 +435,8 @@ class System:
                 return type(cs_self).__mro__[1].translate(cs_self, side, path)
             self.translate = _tr
         self.notes = []
+        self.project_state = False
+        self.projector = StateProjector(self.names)
         self._oidnums = [{}, {}]
         self.cur_mgr = ""
         self.resolve_calls = []
@@ -676,7 +678,14 @@ class System:
         self.cur_mgr = ""
         self.pump_notifications()
         if len(self.rec.events) > n0 or out != "ok":   # something observable happened: log the step and the trees
-            self.rec.ev("StepEnd", mgr=name, step=self.rec.step, out=out, post=self.trees())
+            d = self.rec.ev("StepEnd", mgr=name, step=self.rec.step, out=out, post=self.trees())
+            if self.project_state:
+                self.in_user = True
+                try:
+                    from cloudsync.sync.state import SyncState
+                    d["st"] = self.projector.project(self.cs.state, self.storage, SyncState)
+                finally:
+                    self.in_user = False
         else:                                          # an idle step leaves no line at all
             del self.rec.events[n0 - 1:]
         return out
@@ -878,3 +887,95 @@ class System:
             self.after_quiet()
         else:
             raise MachineryError("unknown token %r" % (tok,))
+
+
+# ---- projection of the sync state (C08 / C11) ---------------------------------------------------------------------
+EXISTS_CODE = {"unknown": 0, "exists": 1, "trashed": 2, "missing": 3, "likely-trashed": 4, "corrupt": 5}
+IGNORE_CODE = {"none": 0, "discarded": 1, "conflict": 2, "temp rename": 3, "irrelevant": 4}
+
+
+class StateProjector:
+    """Numbers entries / oids / hashes in order of first appearance and projects a SyncState + its storage rows."""
+
+    def __init__(self, names):
+        self.names = names
+        self.ent = {}
+        self.oid = [{}, {}]
+        self.hashes = {}
+        self.sids = {}
+
+    def _n(self, table, key):
+        if key is None:
+            return 0
+        if key not in table:
+            table[key] = len(table) + 1
+        return table[key]
+
+    def _h(self, h):
+        if h is None:
+            return 0
+        k = repr(h)
+        return self._n(self.hashes, k)
+
+    def _p(self, side, path):
+        return self.names.encode(side, path) if path else []
+
+    def side_rec(self, side, d):
+        """d: mapping with oid, path, hash, sync_hash, sync_path, exists(str), changed, otype(str)"""
+        return [self._n(self.oid[side], d["oid"]), self._p(side, d["path"]), self._h(d["hash"]), self._h(d["sync_hash"]),
+                self._p(side, d["sync_path"]), EXISTS_CODE.get(d["exists"], 9), 1 if d["changed"] else 0,
+                1 if d["otype"] == "dir" else 2]
+
+    def ent_rec(self, e):
+        def sd(s):
+            ss = e[s]
+            return self.side_rec(s, {"oid": ss.oid, "path": ss.path, "hash": ss.hash, "sync_hash": ss.sync_hash,
+                                     "sync_path": ss.sync_path, "exists": ss.exists.value, "changed": ss.changed,
+                                     "otype": ss.otype.value if ss.otype else "file"})
+        return {"id": self._n(self.ent, id(e)), "sid": self._n(self.sids, e.storage_id), "ig": IGNORE_CODE.get(e.ignored.value, 9),
+                "s": [sd(0), sd(1)]}
+
+    def row_rec(self, sid, blob):
+        import msgpack
+        ser = msgpack.loads(blob, use_list=False, raw=False)
+        ig = ser.get("ignored", "none") or "none"
+        if ig == "trashed":
+            ig = "discarded"
+
+        def sd(s):
+            d = ser["side%d" % s]
+            ex = d["exists"]
+            ex = {None: "unknown", True: "exists", False: "trashed"}.get(ex, ex) if not isinstance(ex, str) else ex
+            return self.side_rec(s, {"oid": d["oid"], "path": d["path"], "hash": d["hash"], "sync_hash": d["sync_hash"],
+                                     "sync_path": d["sync_path"], "exists": ex, "changed": d["changed"], "otype": d["otype"]})
+        return {"sid": self._n(self.sids, sid), "ig": IGNORE_CODE.get(ig, 9), "s": [sd(0), sd(1)]}
+
+    def project(self, state, storage, reload_cls=None):
+        ents = set(state._changeset_storage) | set(state._dirtyset)
+        for s in (0, 1):
+            ents |= set(state._oids[s].values())
+            for m in state._paths[s].values():
+                ents |= set(m.values())
+        recs = sorted((self.ent_rec(e) for e in ents), key=lambda r: r["id"])
+        oidx = sorted([s, self._n(self.oid[s], o), self._n(self.ent, id(e))] for s in (0, 1) for o, e in state._oids[s].items())
+        pidx = sorted([s, self._p(s, p), self._n(self.oid[s], o), self._n(self.ent, id(e))]
+                      for s in (0, 1) for p, m in state._paths[s].items() for o, e in m.items())
+        out = {"ents": recs, "oidx": oidx, "pidx": pidx,
+               "pend": sorted(self._n(self.ent, id(e)) for e in state._changeset_storage),
+               "dirty": sorted(self._n(self.ent, id(e)) for e in state._dirtyset), "rows": [], "reload": {"ok": 1}}
+        if storage is not None and state._tag:
+            rows = storage.read_all(state._tag)
+            out["rows"] = sorted((self.row_rec(sid, blob) for sid, blob in rows.items()), key=lambda r: r["sid"])
+            if reload_cls is not None:
+                # a fresh state over what storage holds: same lookups, same pending set?
+                try:
+                    st2 = reload_cls(state.providers, storage, state._tag)
+                    lo = sorted([s, self._n(self.oid[s], o), self._n(self.sids, e.storage_id)] for s in (0, 1)
+                                for o, e in st2._oids[s].items() if o is not None)
+                    lp = sorted([s, self._p(s, p), self._n(self.oid[s], o), self._n(self.sids, e.storage_id)]
+                                for s in (0, 1) for p, m in st2._paths[s].items() for o, e in m.items() if p and o is not None)
+                    pe = sorted(self._n(self.sids, e.storage_id) for e in st2._changeset_storage)
+                    out["reload"] = {"ok": 1, "oidx": lo, "pidx": lp, "pend": pe}
+                except Exception as ex:
+                    out["reload"] = {"ok": 0, "oidx": [], "pidx": [], "pend": [], "exc": type(ex).__name__}
+        return out
